@@ -612,9 +612,14 @@ func ruleR17() *Rule {
 					)
 					// the receiver segment and its index
 					var segIdx ssa.Value
-					if u, ok := root(cs.Common().Args[0]).(*ssa.UnOp); ok {
-						if ia, ok := u.X.(*ssa.IndexAddr); ok {
-							segIdx = ia.Index
+					for _, a := range cs.Common().Args {
+						if !isNamedPtr(a.Type(), "SegmentBase") || segIdx != nil {
+							continue
+						}
+						if u, ok := root(a).(*ssa.UnOp); ok {
+							if ia, ok := u.X.(*ssa.IndexAddr); ok {
+								segIdx = ia.Index
+							}
 						}
 					}
 					isDropOfSeg := func(v ssa.Value) bool {
@@ -684,8 +689,9 @@ func ruleR17() *Rule {
 					}
 					// a wrapper around the copy (`copyStoredDocsAndRemap`): an unexported method that copies its
 					// own receiver's documents is guarded where it is called
-					if depth < 2 && fn.Object() != nil && !fn.Object().Exported() && fn.Signature.Recv() != nil && len(fn.Params) > 0 &&
-						len(cs.Common().Args) > 0 && root(cs.Common().Args[0]) == ssa.Value(fn.Params[0]) {
+					_, segIsParam := root(cs.Common().Args[0]).(*ssa.Parameter)
+					if depth < 2 && fn.Object() != nil && !fn.Object().Exported() && len(fn.Params) > 0 &&
+						len(cs.Common().Args) > 0 && segIsParam {
 						fsAll, deAll, k := true, true, 0
 						for _, cs2 := range p.callersOf(fn) {
 							if !p.InZap(cs2.Parent()) {
@@ -1517,9 +1523,31 @@ func ruleR24() *Rule {
 // stores the sentinel and writes nothing.
 func r24Writer(c *RuleCtx) {
 	props := []string{"C05"}
-	fn := c.fn("mergeStoredAndRemap")
-	if fn == nil {
+	top := c.fn("mergeStoredAndRemap")
+	if top == nil {
 		return
+	}
+	// the per-document loop may live in a step the routine was split into: the routine itself, or the one
+	// of its helpers (two levels) that stores the sentinel into a table
+	fn := top
+	storesSentinelIn := func(f *ssa.Function) bool {
+		found := false
+		eachInstr(f, func(_ *ssa.BasicBlock, in ssa.Instruction) {
+			if st, ok := in.(*ssa.Store); ok && isSentinelConst(st.Val) {
+				if _, ok := st.Addr.(*ssa.IndexAddr); ok {
+					found = true
+				}
+			}
+		})
+		return found
+	}
+	if !storesSentinelIn(top) {
+		for _, h := range withHelpers(c.p, top) {
+			if h != top && storesSentinelIn(h) {
+				fn = h
+				break
+			}
+		}
 	}
 	mayWrite := c.p.mayWriteFuncs()
 	var dropIf *ssa.If
@@ -1636,6 +1664,13 @@ func r24Writer(c *RuleCtx) {
 		// the running counter: a loop-carried value that is incremented by one
 		if ph, ok := st.Val.(*ssa.Phi); ok && isRunningCounter(ph) && !dropBlock.Dominates(b) && b != dropBlock {
 			survivorStore = true
+		}
+		// the running counter kept in a field of the object the step is a method of (`m.newDocNum`,
+		// incremented by one in this very function)
+		if u, ok := st.Val.(*ssa.UnOp); ok && u.Op == token.MUL && !dropBlock.Dominates(b) && b != dropBlock {
+			if fa, ok := u.X.(*ssa.FieldAddr); ok && fieldIncrementedByOne(fn, fa) {
+				survivorStore = true
+			}
 		}
 	})
 	c.add2(survivorStore, props, "writer/survivor-number", c.fpos(fn), "for a surviving document the table receives the running new document number", "no store of the running counter into the renumbering table found outside the dropped branch")
@@ -2180,4 +2215,32 @@ func dependsOnBitmap(v ssa.Value, depth int, seen map[ssa.Value]bool) bool {
 		return dependsOnBitmap(x.Tuple, depth+1, seen)
 	}
 	return false
+}
+
+// fieldIncrementedByOne: fn contains `x.f = x.f + 1` (x.f++) for the field fa addresses.
+func fieldIncrementedByOne(fn *ssa.Function, fa *ssa.FieldAddr) bool {
+	found := false
+	eachInstr(fn, func(_ *ssa.BasicBlock, in ssa.Instruction) {
+		st, ok := in.(*ssa.Store)
+		if !ok {
+			return
+		}
+		fb, ok := st.Addr.(*ssa.FieldAddr)
+		if !ok || fb.Field != fa.Field || !sameQuantity(fb.X, fa.X, 0) {
+			return
+		}
+		bo, ok := st.Val.(*ssa.BinOp)
+		if !ok || bo.Op != token.ADD {
+			return
+		}
+		if k, ok := constUint64(bo.Y); !ok || k != 1 {
+			return
+		}
+		if u, ok := bo.X.(*ssa.UnOp); ok && u.Op == token.MUL {
+			if fc, ok := u.X.(*ssa.FieldAddr); ok && fc.Field == fa.Field && sameQuantity(fc.X, fa.X, 0) {
+				found = true
+			}
+		}
+	})
+	return found
 }
